@@ -221,20 +221,27 @@ func TestC14Order(t *testing.T) {
 // Back-to-back pairs (fire then resolve, resolve then fire) of many alerts; once the
 // dispatcher has caught up, every group must hold the provider's version. A stale copy
 // is a permanent state, so waiting longer can never turn a pass into a failure.
-func TestC14Stress(t *testing.T) { c14Stress(t, false) }
+func TestC14Stress(t *testing.T) { c14Stress(t, "C14", "C14Stress", false) }
 
 // TestC14StressAPI: the same through POST /api/v2/alerts, where the receive time of a submission is assigned.
-func TestC14StressAPI(t *testing.T) { c14Stress(t, true) }
+func TestC14StressAPI(t *testing.T) { c14Stress(t, "C14", "C14StressAPI", true) }
 
-func c14Stress(t *testing.T, viaAPI bool) {
+// C06StressAPI / C01StressAPI: the same run judged for "GET /alerts/groups (Dispatcher.Groups) shows exactly the
+// partition of the current alerts" and for "every alert the API accepted reaches its receivers": an alert the provider
+// stores (also one posted by a client that hung up as soon as its request was sent: every third request runs with an
+// already cancelled context) is held by an aggregation group.
+func TestC06StressAPI(t *testing.T) { c14Stress(t, "C06", "C06StressAPI", true) }
+func TestC01StressAPI(t *testing.T) { c14Stress(t, "C01", "C01StressAPI", true) }
+
+func c14Stress(t *testing.T, prop, name string, viaAPI bool) {
 	if pbt.Replaying() {
 		t.Skip("statistical check: no replay")
 	}
-	name, how := "C14Stress", "into a real provider"
+	how := "into a real provider"
 	if viaAPI {
-		name, how = "C14StressAPI", "as two separate POSTs to the real /api/v2/alerts handler (which assigns the receive time) of a real provider"
+		how = "as two separate POSTs to the real /api/v2/alerts handler (which assigns the receive time; every third request with an already cancelled request context) of a real provider"
 	}
-	m := pbt.NewManual("C14", name, "black box, real scheduler: N alerts, each submitted twice back to back (fire->resolve or resolve->fire, distinct receive times) "+how+" + dispatcher; after the dispatcher caught up (polled up to 60 s) every aggregation group must hold the provider's version. Non-trivial: every pair.")
+	m := pbt.NewManual(prop, name, "black box, real scheduler: N alerts, each submitted twice back to back (fire->resolve or resolve->fire, distinct receive times) "+how+" + dispatcher; after the dispatcher caught up (polled up to 60 s) every aggregation group must hold the provider's version. Non-trivial: every pair.")
 	defer m.Flush()
 	n := 600
 	if pbt.Thorough() {
